@@ -45,7 +45,7 @@ def concretize(form, t, rng=None):
     body = b"".join(b for _, b in parts)
     if form == "star":
         return b"*", []
-    prefix = {"origin": b"/", "dslash": b"//", "abs": b"http://h/"}[form]
+    prefix = {"origin": b"/", "dslash": b"//", "abs": b"http://h/", "mount": b"/m/"}[form]
     return prefix + body, parts
 
 
@@ -153,8 +153,15 @@ def observe(form, t, rng, hdrs=None, method="GET", ver=11, vary=False):
         start_response("200 OK", [("Content-Length", "0")])
         return []
     cfg = drv.make_cfg()
+    # SCRIPT_NAME "as configured": raw_env / the process environment, set when the worker starts, i.e. after
+    # gunicorn's modules were imported
     os.environ.pop("SCRIPT_NAME", None)
-    r = drv.serve("sync", cfg, [req], app)
+    if form == "mount":
+        os.environ["SCRIPT_NAME"] = "/m"
+    try:
+        r = drv.serve("sync", cfg, [req], app)
+    finally:
+        os.environ.pop("SCRIPT_NAME", None)
     if not envs:
         return None, {"request": req.decode("latin-1"), "rejected": True, "wire": r.wire[:60].decode("latin-1")}
     env = envs[0]
@@ -205,7 +212,7 @@ def c15(ctx):
     for c in cases:
         add(c["form"], c["t"])
     for _ in range(1500 if ctx.quick else 20000):
-        form = rng.choice(["origin", "origin", "dslash", "abs"])
+        form = rng.choice(["origin", "origin", "dslash", "abs", "mount"])
         t = [rng.choice(SYMS) for _ in range(rng.randint(0, 10))]
         hdrs = [[rng.randint(1, 4), i + 1] for i in range(rng.randint(0, 6))]
         if rng.random() < 0.1 and form != "abs":
@@ -232,14 +239,14 @@ def c15(ctx):
             culprit = ",".join(cause) or "-"
         if v == "HeaderVariableWrong":
             culprit = "value-bytes"
-        elif v == "ScriptNameNotEmpty":
+        elif v == "ScriptNameNotAsConfigured":
             culprit = "hyphen-script-name" if any(h[0] == 5 for h in t["hdrs"]) else "-"
         ctx.violation("C15/%s/%s" % (v, culprit), "%s: %s observed=%s" % (v, json.dumps(m)[:300], t["obs"]), {"trace": t, "meta": m})
     for t, m in list(zip(traces, metas))[:2] + list(zip(traces, metas))[-2:]:
         ctx.sample({"request": m["request"][:120], "PATH_INFO": m["PATH_INFO"], "QUERY_STRING": m["QUERY_STRING"], "obs": t["obs"]})
     ctx.assumptions += ["targets without '#' (a fragment is not part of a request-target)",
                         "requests the parser refuses are outside the quantifier (counted as rejected_by_parser)",
-                        "SCRIPT_NAME not configured (empty)"]
+                        "SCRIPT_NAME empty, or \"/m\" set in the process environment after import (form mount), as raw_env does at worker start"]
 
 
 def replay(ctx, data):
